@@ -100,7 +100,7 @@ func optsRec(o wopts) rec {
 	if code == 0 {
 		code = 7
 	}
-	return rec{"code": code, "bcs": o.BCS, "ccs": o.CCS, "size": cs, "legacy": o.Legacy, "level": o.Level, "conc": o.Conc}
+	return rec{"code": code, "bcs": o.BCS, "ccs": o.CCS, "size": cs, "legacy": o.Legacy, "level": o.Level, "conc": o.Conc, "handler": o.Handler}
 }
 
 // frameWrite runs Writer call histories and records calls, sink-call pattern and the emitted frame.
